@@ -427,6 +427,16 @@ def check_history(case, rec):
             ok, err = common.close(s1, s2, rtol=1e-9, atol=1e-300)
             require(ok, f"spectral_density differs from directly constructed model by {err:.3g} (stale transform?)", dict(tags, kind="spectrum_stale"))
 
+        def _isc(mm):
+            try:
+                return float(mm.integral_scale)
+            except Exception as e:  # noqa: BLE001
+                return type(e).__name__
+
+        i1, i2 = _isc(m), _isc(f)
+        same = i1 == i2 or (isinstance(i1, float) and isinstance(i2, float) and ((i1 != i1 and i2 != i2) or abs(i1 - i2) <= 1e-9 * abs(i2)))
+        require(same, f"integral_scale after the history is {i1!r}, the directly constructed model reports {i2!r}", dict(tags, kind="integral_scale_stale"))
+
 
 def _do_integral_scale(m, r, op, tags, rec, where):
     """integral_scale setter: returns True when the history has to stop."""
